@@ -90,8 +90,15 @@ FibAt(c, T, k) ==                     \* k 0-based
                  dt == t.p[1] * u[1] + t.p[3] * u[3]
                  cr == t.p[1] * u[3] - t.p[3] * u[1]
                  slack == 2 * (AbsI(t.p[1]) + AbsI(t.p[3]) + AbsI(u[1]) + AbsI(u[3]) + 2)
-             IN AbsI((dt \div 8) * GoldSin - (cr \div 8) * GoldCos) <= (slack \div 8 + 2) * (GoldSin - GoldCos))
-FibOK(c, T) == \A k \in DOMAIN T : FibAt(c, T, k - 1) /\ UnitScale(T[k]) /\ IsIdent(T[k])
+             IN /\ AbsI((dt \div 32) * GoldSin - (cr \div 32) * GoldCos) <= (slack \div 32 + 2) * (GoldSin - GoldCos)
+                /\ cr >= -slack /\ dt <= slack)
+\* anchor of the azimuth: sample 1 sits at the golden angle itself (sample 0 is the pole)
+FibAnchor(c, T) ==
+    c.n < 3 \/
+    LET p == T[2].p
+    IN /\ AbsI(p[1] * GoldSin - p[3] * GoldCos) <= 4 * (GoldSin - GoldCos)     \* one unit of rounding, four times
+       /\ p[3] >= -2 /\ p[1] <= 2
+FibOK(c, T) == FibAnchor(c, T) /\ \A k \in DOMAIN T : FibAt(c, T, k - 1) /\ UnitScale(T[k]) /\ IsIdent(T[k])
 
 (* ------------------------- spline (lattice polyline) ------------------ *)
 SplineParam(c, k) ==
